@@ -132,6 +132,11 @@ Proof.
   - intros s Hs. exact (lindblad_step_hermitian o laws D Heff Js rho s Hs Hh).
 Qed.
 
+(* the Hermiticity premises are satisfiable (zero matrix; the ground-state density matrix of the witness above) *)
+Example C16_hermitian_premise_satisfiable : forall (o : Kops), Klaws o -> forall D,
+  herm_on o D (fun _ _ => k0 o) /\ kconj o (k1 o) = k1 o.
+Proof. intros o laws D. split; [intros a b _ _; symmetry; apply (conj_0 o laws) | apply (conj_1 o laws)]. Qed.
+
 (* krylov_preserves_linear_invariants: V any module over the scalars (vadd, vscale, vzero arbitrary operations),
    A ANY map V -> V, f a linear functional annihilated by A (f (A v) = 0, e.g. f = trace, A = the Lindbladian:
    C16_lindblad_trace_free).  Then along the partial sums  psum c n v = sum_{k<=n} c_k A^k v  of any power series
